@@ -138,5 +138,5 @@ Proof.
   change (filter (fun f0 : field => negb (header_skipped (fst f0)))
                  [(T_PossDupFlag, V_Y); (T_OrigSendingTime, r_time r)])
     with [(T_PossDupFlag, V_Y); (T_OrigSendingTime, r_time r)].
-  unfold persist. cbn [r_seq rows]. unfold has_key in *. rewrite Hk. reflexivity.
+  unfold persist. Show. cbn [r_seq rows]. unfold has_key in *. rewrite Hk. reflexivity.
 Qed.
